@@ -8,7 +8,6 @@ import (
 	"net"
 	"os"
 	"path/filepath"
-	"strings"
 	"sync"
 	"testing"
 	"time"
@@ -228,6 +227,28 @@ func run(c *Case) error {
 			maxlen = len(plans[i])
 		}
 	}
+	// A case with a repeated part consists of well-formed requests, each of
+	// which is answered: instead of waiting for the connection to fall
+	// silent, the executor counts replies and goes on as soon as everything
+	// written so far was answered (or after 2 ms: a flushed request may stay
+	// unanswered). All connections get their chunk before any is waited for.
+	counted := c.Loops > 1
+	sent := make([]int, len(conns))
+	got := make([]replyCounter, len(conns))
+	await := func(i int) {
+		end := time.Now().Add(2 * time.Millisecond)
+		for got[i].n < sent[i] {
+			_ = conns[i].SetReadDeadline(end)
+			n, err := conns[i].Read(buf)
+			got[i].feed(buf[:n])
+			if n == 0 || err != nil {
+				// not waited for again
+				sent[i] = got[i].n
+				hx.ExtraAdd("churn_waits_expired", 1)
+				return
+			}
+		}
+	}
 	for k := 0; k < maxlen; k++ {
 		for i, chunks := range plans {
 			if k >= len(chunks) {
@@ -235,8 +256,20 @@ func run(c *Case) error {
 			}
 			_ = conns[i].SetWriteDeadline(time.Now().Add(2 * time.Second))
 			_, _ = conns[i].Write(chunks[k])
+			if counted {
+				sent[i] += countFrames(chunks[k])
+				hx.ExtraAdd("churn_chunks", 1)
+				continue
+			}
 			if k < c.muteAt(i) {
 				drain(conns[i], 2*time.Millisecond)
+			}
+		}
+		if counted {
+			for i, chunks := range plans {
+				if k < len(chunks) && k < c.muteAt(i) {
+					await(i)
+				}
 			}
 		}
 	}
@@ -272,9 +305,46 @@ func run(c *Case) error {
 	return nil
 }
 
+// replyCounter counts the complete frames of a reply stream.
+type replyCounter struct {
+	n    int
+	hdr  []byte // bytes of an incomplete size prefix
+	skip int    // bytes of the current frame still to come
+}
+
+func (r *replyCounter) feed(b []byte) {
+	for len(b) > 0 {
+		if r.skip > 0 {
+			k := min(r.skip, len(b))
+			r.skip -= k
+			b = b[k:]
+			if r.skip == 0 {
+				r.n++
+			}
+			continue
+		}
+		k := min(4-len(r.hdr), len(b))
+		r.hdr = append(r.hdr, b[:k]...)
+		b = b[k:]
+		if len(r.hdr) == 4 {
+			sz := int(binary.LittleEndian.Uint32(r.hdr))
+			r.hdr = r.hdr[:0]
+			if sz <= 4 {
+				r.n++ // cannot happen with a sane server; never stall on it
+				continue
+			}
+			r.skip = sz - 4
+		}
+	}
+}
+
+func countFrames(b []byte) int {
+	frames, _, _ := ref9p.SplitFrames(b)
+	return len(frames)
+}
+
 // probe is the oracle: the child is alive, the bystander connection opened
 // before the case gets an answer, and a fresh connection gets an Rversion.
-// nil also when the round was inconclusive (recorded as such).
 func (e *targetEnv) probe(when string) error {
 	if !e.ch.Alive() {
 		return e.death("the server process died")
@@ -284,10 +354,10 @@ func (e *targetEnv) probe(when string) error {
 	// renamed the exported root itself, which then fails to stat)
 	r, err := e.bystander.Stat(0)
 	if err != nil {
-		if !e.ch.Alive() {
+		if e.diedMeanwhile(err) {
 			return e.death("the server process died")
 		}
-		return e.unserved(err, fmt.Sprintf("a bystander connection opened before the case is no longer served %s (Tstat: %v %+v)", when, err, r))
+		return e.unserved(fmt.Sprintf("a bystander connection opened before the case is no longer served %s (Tstat: %v %+v)", when, err, r))
 	}
 	// later connections are served
 	cn, err := e.ch.Dial()
@@ -299,59 +369,34 @@ func (e *targetEnv) probe(when string) error {
 	v, err := p.Version(4096, "9P2000")
 	p.Close()
 	if err != nil || v.Type != ref9p.Rversion {
-		if !e.ch.Alive() {
+		if e.diedMeanwhile(err) {
 			return e.death("the server process died")
 		}
-		return e.unserved(err, fmt.Sprintf("a connection opened %s is not served (Tversion: %v)", when, err))
+		return e.unserved(fmt.Sprintf("a connection opened %s is not served (Tversion: %v)", when, err))
 	}
 	return nil
 }
 
-// unserved reads the goroutine dump of a live server that did not answer. A
-// wait that ran out although no goroutine of the server is doing anything
-// inside go9p (every connection parked in its Read, every sender idle) was a
-// stall of the machine or of this process, not of the server: inconclusive.
-func (e *targetEnv) unserved(cause error, what string) error {
+// diedMeanwhile: a connection that breaks (anything but a reply that did not
+// come in time) is the first thing seen of a server that is just dying; its
+// exit is noticed a moment later.
+func (e *targetEnv) diedMeanwhile(err error) bool {
+	if err == nil || err == rawc.ErrTimeout {
+		return !e.ch.Alive()
+	}
+	for i := 0; i < 300 && e.ch.Alive(); i++ {
+		time.Sleep(10 * time.Millisecond)
+	}
+	return !e.ch.Alive()
+}
+
+// unserved: the server is alive but did not answer within patience. Its
+// goroutine dump goes into the report (the dump kills it; it is restarted).
+func (e *targetEnv) unserved(what string) error {
 	txt := e.ch.Dump()
 	_ = e.ch.Restart()
 	e.bystander = nil
-	if cause == rawc.ErrTimeout && serverIdle(txt) {
-		hx.Inconclusive(what + ", but the server was idle:\n" + clip(txt, 3000))
-		return nil
-	}
 	return &deathErr{what + "; server goroutines:\n" + clip(txt, 5000)}
-}
-
-// serverIdle: no goroutine of the dump is inside go9p except connections
-// waiting for bytes (recv in a Read), idle senders (send in its select) and
-// the logger.
-func serverIdle(dump string) bool {
-	seen := false
-	for _, blk := range strings.Split(dump, "\n\n") {
-		head, rest, _ := strings.Cut(blk, "\n")
-		if !strings.HasPrefix(head, "goroutine ") {
-			continue
-		}
-		seen = true
-		if !strings.Contains(rest, "github.com/rminnich/go9p.") {
-			continue
-		}
-		inner := ""
-		for _, l := range strings.Split(rest, "\n") {
-			if strings.HasPrefix(l, "github.com/rminnich/go9p.") {
-				inner = l
-				break
-			}
-		}
-		switch {
-		case strings.Contains(inner, "(*Logger).doLog"):
-		case strings.Contains(inner, "(*Conn).recv") && strings.Contains(rest, ").Read("):
-		case strings.Contains(inner, "(*Conn).send") && strings.Contains(head, "[select"):
-		default:
-			return false
-		}
-	}
-	return seen
 }
 
 func (e *targetEnv) death(what string) error {
@@ -727,10 +772,13 @@ func execute(test string, c *Case) error {
 	return run(c)
 }
 
-func prop(test string, gen func(*rapid.T, string) *Case, quick, thorough int) func(*testing.T) {
+func prop(test string, gen func(*rapid.T, string) *Case, quick, thorough int, targets ...string) func(*testing.T) {
+	if len(targets) == 0 {
+		targets = []string{"script", "ufs", "ufs"}
+	}
 	return func(t *testing.T) {
 		hx.Check(t, test, hx.N(quick, thorough), func(t *rapid.T) {
-			target := rapid.SampledFrom([]string{"script", "ufs", "ufs"}).Draw(t, "target")
+			target := rapid.SampledFrom(targets).Draw(t, "target")
 			c := gen(t, target)
 			if err := execute(test, c); err != nil {
 				hx.Failf(t, test, c, "%v", err)
